@@ -37,6 +37,8 @@ def grad_oracle(chk, n_seeds):
 
 def run(chk):
     quick = chk.tier == "quick"
+    from props._funcs import table_obligation_setup
+    table_obligation_setup(chk)   # Gen/OpTable.lean for Props/C01/Rules.lean, pinned for this run
     chk.rule = ("(1) graph family: stateful histories on the real Graph and on the Lean model (see C05) — exact integer gradients through "
                 "user-defined operators, compared after every backward; (2) gradient oracle on the implementation: for every differentiable "
                 "function of primitiv::functions (%d case families: unary, constant, binary in all batch patterns and scalar dispatches, matmul, "
